@@ -788,7 +788,7 @@ fn main() {
 			}
 		}
 	}
-	rec.notes.insert("rule".into(), format!("PRNG routes of 1..N hops over {} node keys (N = longest suffix that fits {} bytes for the drawn payload sizes, also N+1), amounts in 6 magnitude classes, recipient fields (secret/metadata/custom TLVs/keysend) of varying size; per route: build (byte-exact), every hop peels, sampled single-bit corruptions, failures at random hops relayed back; plus the boundary section: failure-data lengths 0/1/253..257 (pad-to-256 threshold) and the lengths making the update_fail_htlc LN_MAX_MSG_LEN-2..+2 bytes with attribution data / from a failing node without it (thresholds taken from the real codec), each relayed by 1..N hops on a 6-hop route (every failing position), a short route and one longer than MAX_HOPS, compared on packet length, attribution data kept per relay, real vs modelled wire length, SHA-256 of packet and attribution data, decoded (hop, code, data, hold times); every op line distinct; max hops seen {}", MAX_NODES, L, max_hops_seen));
+	rec.notes.insert("rule".into(), format!("PRNG routes of 1..N hops over {} node keys (N = longest suffix that fits {} bytes for the drawn payload sizes, also N+1), amounts in 6 magnitude classes, recipient fields (secret/metadata/custom TLVs/keysend) of varying size; per route: build (byte-exact), every hop peels, sampled single-bit corruptions, failures at random hops relayed back; plus the boundary section: failure-data lengths 0/1/253..257 (pad-to-256 threshold) and the lengths making the update_fail_htlc LN_MAX_MSG_LEN-2..+2 bytes with attribution data / from a failing node without it (thresholds taken from the real codec), each relayed by 1..N hops on a 6-hop route (every failing position), a short route and one longer than MAX_HOPS, compared on packet length, attribution data kept per relay, real vs modelled wire length, SHA-256 of packet and attribution data, decoded (hop, code, data, hold times); plus hop payload encoders: every payload of half of the routes and of all blinded routes as `payload` ops (what was asked vs the real bytes), RecipientCustomTlvs::new on drawn custom TLV sets (types below / between / above 77_777 and 5482373484, odd and even, reserved / low / repeated ones), payments to blinded recipients (real BlindedPaymentPath::new / one_hop, 0..3 blinded forwarding nodes, keysend, invoice_request) peeled by every node with the decoded instructions compared (`payloaddec`); every op line distinct; max hops seen {}", MAX_NODES, L, max_hops_seen));
 	rec.notes.insert("trusted".into(), "ECDH / ephemeral key blinding stay on the Rust side (shared secrets are inputs to the model); the real serialized length of update_fail_htlc comes from the real codec (parse + re-encode round trip)".into());
 	rec.finish();
 }
